@@ -280,13 +280,17 @@ def scene_inertia(scene, transform: Optional[ArrayLike] = None) -> NDArray[float
     # get the matrix ang geometry name for
     nodes = [graph[n] for n in graph.nodes_geometry]
     # get the moment of inertia with the mesh moved to a location
-    moments = np.array(
-        [
-            geoms[g].moment_inertia_frame(np.dot(np.linalg.inv(mat), transform))
-            for mat, g in nodes
-            if hasattr(geoms[g], "moment_inertia_frame")
-        ],
-        dtype=np.float64,
-    )
+    moments = []
+    for mat, g in nodes:
+        if not hasattr(geoms[g], "moment_inertia_frame"):
+            continue
+        # the requested frame in the local frame of the geometry
+        local = np.dot(np.linalg.inv(mat), transform)
+        # an instance with uniform scale `s` is the geometry seen from a frame
+        # with the same origin and an unscaled rotation, with the tensor then
+        # multiplied by `s**5` (mass scales by `s**3`, lengths squared by `s**2`)
+        scale = np.abs(np.linalg.det(mat[:3, :3])) ** (1.0 / 3.0)
+        local[:3, :3] *= scale
+        moments.append(geoms[g].moment_inertia_frame(local) * scale**5)
 
-    return moments.sum(axis=0)
+    return np.array(moments, dtype=np.float64).reshape((-1, 3, 3)).sum(axis=0)
